@@ -264,11 +264,13 @@ impl CharProperty {
 
         let r: Vec<_> = cols[0].split("..").collect();
         let start = usize::from_str_radix(String::from(r[0]).trim_start_matches("0x"), 16)?;
-        let end = if r.len() > 1 {
-            usize::from_str_radix(String::from(r[1]).trim_start_matches("0x"), 16)? + 1
+        let last = if r.len() > 1 {
+            usize::from_str_radix(String::from(r[1]).trim_start_matches("0x"), 16)?
         } else {
-            start + 1
+            start
         };
+        // `last` is inclusive. Saturates for usize::MAX, which is rejected as out of range below.
+        let end = last.saturating_add(1);
         if start >= end {
             let msg =
                 format!("The start of a character range must be no more than the end, {line}");
